@@ -285,18 +285,7 @@ func (e *emitter) simpleFn(form, goName, method string, id int, ctx, err bool) s
 
 func (e *emitter) sliceFn(s *ps.Slice) string {
 	pid := e.p.PID
-	elemSpell := e.tyx
-	valExpr := fmt.Sprintf("valT%d(a0)", s.Elem)
-	paramType := func(spell func(int) string) string { return spell(s.Elem) }
-	if e.p.Quirk == "ifaceelem-refuse" && s.S == 0 {
-		// parameter is the interface T7, elements are the concrete i7.
-		paramType = func(func(int) string) string { return "T7" }
-		valExpr = "valT7(a0)"
-	}
-	if e.p.Quirk == "ifaceelem-accept" && s.S == 0 {
-		paramType = func(func(int) string) string { return "i7" }
-		valExpr = "valT7(a0)"
-	}
+	valExpr := fmt.Sprintf("valT%d(a0)", s.Param)
 	build := func(cn, hx string, spell func(int) string) (decl, body string) {
 		var ds []string
 		if s.Ctx {
@@ -307,7 +296,7 @@ func (e *emitter) sliceFn(s *ps.Slice) string {
 			ds = append(ds, "i int")
 			idx = "i"
 		}
-		ds = append(ds, "a0 "+paramType(spell))
+		ds = append(ds, "a0 "+spell(s.Param))
 		call := fmt.Sprintf("%s.SliceFn(%s, %d, %s, %s)", hx, ctxArg(s.Ctx, cn), s.S, idx, valExpr)
 		if s.Err {
 			return strings.Join(ds, ", "), "return " + call
@@ -324,7 +313,7 @@ func (e *emitter) sliceFn(s *ps.Slice) string {
 		fmt.Fprintf(&e.comp, "func %s(%s)%s {\n\t%s\n}\n\n", name, decl, res, body)
 		return name
 	}
-	decl, body := build(e.ctxName(), "h", elemSpell)
+	decl, body := build(e.ctxName(), "h", e.tyx)
 	return fmt.Sprintf("func(%s)%s { %s }", decl, res, body)
 }
 
@@ -335,23 +324,11 @@ func (e *emitter) sliceExpr(s *ps.Slice) string {
 	if s.Named {
 		typ = fmt.Sprintf("SL%d", s.Elem)
 	}
-	mk := fmt.Sprintf("mkT%d", s.Elem)
-	if e.p.Quirk == "ifaceelem-refuse" && s.S == 0 {
-		typ = "[]i7"
-		mk = "i7{v: rt.SliceElem(%d, i)}"
-	}
-	if e.p.Quirk == "ifaceelem-accept" && s.S == 0 {
-		typ = "[]T7"
-	}
 	if s.Len < 0 {
 		fmt.Fprintf(&e.comp, "func %s() %s { return nil }\n\n", name, typ)
 	} else {
-		elem := fmt.Sprintf("%s(rt.SliceElem(%d, i))", mk, s.S)
-		if strings.Contains(mk, "%d") {
-			elem = fmt.Sprintf(mk, s.S)
-		}
-		fmt.Fprintf(&e.comp, "func %s() %s {\n\tout := make(%s, %d)\n\tfor i := range out {\n\t\tout[i] = %s\n\t}\n\treturn out\n}\n\n",
-			name, typ, typ, s.Len, elem)
+		fmt.Fprintf(&e.comp, "func %s() %s {\n\tout := make(%s, %d)\n\tfor i := range out {\n\t\tout[i] = mkT%d(rt.SliceElem(%d, i))\n\t}\n\treturn out\n}\n\n",
+			name, typ, typ, s.Len, s.Elem, s.S)
 	}
 	return name + "()"
 }
@@ -363,8 +340,8 @@ func (e *emitter) mapFn(m *ps.Map) string {
 		if m.Ctx {
 			ds = append(ds, cn+" context.Context")
 		}
-		ds = append(ds, "k0 "+spell(m.Key), "a0 "+spell(m.Val))
-		call := fmt.Sprintf("%s.MapFn(%s, %d, valT%d(k0), valT%d(a0))", hx, ctxArg(m.Ctx, cn), m.M, m.Key, m.Val)
+		ds = append(ds, "k0 "+spell(m.KParam), "a0 "+spell(m.VParam))
+		call := fmt.Sprintf("%s.MapFn(%s, %d, valT%d(k0), valT%d(a0))", hx, ctxArg(m.Ctx, cn), m.M, m.KParam, m.VParam)
 		if m.Err {
 			return strings.Join(ds, ", "), "return " + call
 		}
@@ -460,7 +437,12 @@ func Emit(p *ps.Program, pkg, fnsPkg string) *Files {
 		assign = "="
 	}
 	site := p.Site
-	if p.Quirk != "" || site == "" {
+	switch p.Quirk {
+	case "", "timealias", "params2", "invokevar":
+	default:
+		site = "assign"
+	}
+	if site == "" {
 		site = "assign"
 	}
 	recordResults := func(ind string) {
